@@ -340,6 +340,8 @@ def container_model(ctx):
         sc['self'] = inst
         return run_function(m[0], [inst] + list(a), kw, env=sc, call_hook=hook, budget=400000)
     histories = [
+        # two contigs that share feature starts, the contig indexed later holding the longer enclosing feature (a per-contig index must not see the other contig)
+        [[(2, 3, '+', 'c'), (5, 5, '+', 'c')], [(0, 6, '+', 'd'), (2, 3, '-', 'd'), (5, 6, '+', 'd')], [(1, 1, '+', 'c')]],
         [[(1, 3, '+')], [(2, 2, '-'), (0, 5, '+')], [(4, 6, '-')]],
         [[(2, 4, '+'), (2, 4, '-')], [(0, 0, '+')], [(3, 3, '+'), (5, 6, '+')]],
         [[(0, 1, '+'), (3, 4, '+'), (6, 6, '-')], [(2, 2, '+')], [(1, 5, '-')]],
@@ -352,36 +354,39 @@ def container_model(ctx):
                 pass
             inst = Instance(cls)
             call(inst, '__init__')
-            have = []
+            have_all = {}
             k = 0
             for batch in hist:
-                for (a, b, st) in batch:
+                for item in batch:
+                    a, b, st = item[:3]
+                    cg = item[3] if len(item) > 3 else 'c'
                     k += 1
-                    call(inst, 'addFeature', 'c', a, b, f'f{k}', strand=st)
-                    have.append((a, b, f'f{k}', st, None))
-                for rep in (1, 2):
-                    for lo, hi in [(x, y) for x in range(0, 7) for y in range(x, min(x + 3, 7))]:
-                        for strand in (None, '+'):
-                            n += 1
-                            got = sorted(tuple(x) for x in call(inst, 'findFeaturesBetween', 'c', lo, hi, strand))
-                            want = sorted(ft for ft in have if ft[0] <= hi and ft[1] >= lo and (strand is None or ft[3] == strand))
-                            if got != want:
-                                ctx._container_model = (False, n, {'features added so far (start, end, strand)': [(f_[0], f_[1], f_[3]) for f_ in have], 'query': f'findFeaturesBetween(c, {lo}, {hi}, strand={strand})',
-                                                                   'asked for the': f'{rep}. time after the last add', 'returned': [(g_[0], g_[1], g_[3]) for g_ in got], 'overlapping': [(w_[0], w_[1], w_[3]) for w_ in want]})
-                                return ctx._container_model
-                    for p_ in range(0, 7):
-                        for strand in (None, '+', '-'):
-                            for optim in (None, 'nb', 'optim', 'plain'):
-                                if optim is not None and (strand == '-' or rep == 2):
-                                    continue
-                                n += 1
-                                kw = {} if optim is None else {'optim': optim}
-                                got = sorted(tuple(x) for x in call(inst, 'findFeaturesAt', 'c', p_, strand, **kw))
-                                want = sorted(ft for ft in have if ft[0] <= p_ <= ft[1] and (strand is None or ft[3] == strand))
-                                if got != want:
-                                    ctx._container_model = (False, n, {'features added so far (start, end, strand)': [(f_[0], f_[1], f_[3]) for f_ in have], 'query': f'findFeaturesAt(c, {p_}, strand={strand}' + (f', optim={optim})' if optim else ')'),
-                                                                       'asked for the': f'{rep}. time after the last add', 'returned': [(g_[0], g_[1], g_[3]) for g_ in got], 'containing': [(w_[0], w_[1], w_[3]) for w_ in want]})
-                                    return ctx._container_model
+                    call(inst, 'addFeature', cg, a, b, f'f{k}', strand=st)
+                    have_all.setdefault(cg, []).append((a, b, f'f{k}', st, None))
+                for cg, have in sorted(have_all.items()):
+                  for rep in (1, 2):
+                      for lo, hi in [(x, y) for x in range(0, 7) for y in range(x, min(x + 3, 7))]:
+                          for strand in (None, '+'):
+                              n += 1
+                              got = sorted(tuple(x) for x in call(inst, 'findFeaturesBetween', cg, lo, hi, strand))
+                              want = sorted(ft for ft in have if ft[0] <= hi and ft[1] >= lo and (strand is None or ft[3] == strand))
+                              if got != want:
+                                  ctx._container_model = (False, n, {'features added so far (start, end, strand)': [(f_[0], f_[1], f_[3]) for f_ in have], 'query': f'findFeaturesBetween({cg}, {lo}, {hi}, strand={strand})',
+                                                                     'asked for the': f'{rep}. time after the last add', 'returned': [(g_[0], g_[1], g_[3]) for g_ in got], 'overlapping': [(w_[0], w_[1], w_[3]) for w_ in want]})
+                                  return ctx._container_model
+                      for p_ in range(0, 7):
+                          for strand in (None, '+', '-'):
+                              for optim in (None, 'nb', 'optim', 'plain'):
+                                  if optim is not None and (strand == '-' or rep == 2):
+                                      continue
+                                  n += 1
+                                  kw = {} if optim is None else {'optim': optim}
+                                  got = sorted(tuple(x) for x in call(inst, 'findFeaturesAt', cg, p_, strand, **kw))
+                                  want = sorted(ft for ft in have if ft[0] <= p_ <= ft[1] and (strand is None or ft[3] == strand))
+                                  if got != want:
+                                      ctx._container_model = (False, n, {'features added so far (start, end, strand)': [(f_[0], f_[1], f_[3]) for f_ in have], 'query': f'findFeaturesAt({cg}, {p_}, strand={strand}' + (f', optim={optim})' if optim else ')'),
+                                                                         'asked for the': f'{rep}. time after the last add', 'returned': [(g_[0], g_[1], g_[3]) for g_ in got], 'containing': [(w_[0], w_[1], w_[3]) for w_ in want]})
+                                      return ctx._container_model
     except (Unfoldable, Raised):
         return None
     except Exception:
